@@ -1,3 +1,110 @@
-use anyhow::{bail, Result};
-pub fn replay(_vecs: &str, _out: &str) -> Result<()> { bail!("todo") }
-pub fn record(_seed: u64, _n: usize, _out: &str) -> Result<()> { bail!("todo") }
+//! C27: `wit_bindgen_core::name_package_module` on package sets enumerated by TLC (replay) and
+//! on seeded random package sets whose observed names TLC re-derives (record).
+use anyhow::Result;
+use serde_json::{json, Value};
+use vcommon::*;
+use wit_bindgen_core::name_package_module;
+use wit_parser::Resolve;
+
+fn text(v: &Value) -> String {
+    v.as_array().unwrap().iter().map(|c| c.as_str().unwrap()).collect()
+}
+
+/// Returns the module name of every package `(name, version)` or an error if wit-parser does
+/// not accept the set (then the set is not a valid input and is skipped).
+pub fn module_names(pkgs: &[(String, String)]) -> Result<Vec<String>> {
+    let mut resolve = Resolve::default();
+    let mut ids = Vec::new();
+    for (i, (name, ver)) in pkgs.iter().enumerate() {
+        let at = if ver.is_empty() { String::new() } else { format!("@{ver}") };
+        let src = format!("package verifns:{name}{at};\ninterface i {{ f: func(); }}\n");
+        let id = resolve.push_str(format!("p{i}.wit"), &src)?;
+        ids.push(id);
+    }
+    Ok(ids.into_iter().map(|id| name_package_module(&resolve, id)).collect())
+}
+
+pub fn replay(vecs: &str, out: &str) -> Result<()> {
+    let vecs = read_ndjson(vecs)?;
+    let mut w = NdjsonWriter::create(out)?;
+    let mut invalid = 0usize;
+    for (i, v) in vecs.iter().enumerate() {
+        let pk = v["pkgs"].as_array().unwrap();
+        let pkgs: Vec<(String, String)> = pk.iter().map(|p| (text(&p["name"]), text(&p["ver"]))).collect();
+        let want: Vec<String> = pk.iter().map(|p| text(&p["mod"])).collect();
+        match module_names(&pkgs) {
+            Err(e) => {
+                invalid += 1;
+                if invalid <= 3 {
+                    w.write(&json!({"i": i, "invalid": format!("{e:#}"), "pkgs": pkgs}))?;
+                }
+            }
+            Ok(got) => {
+                let mut sorted = got.clone();
+                sorted.sort();
+                sorted.dedup();
+                let injective = sorted.len() == got.len();
+                if got != want {
+                    w.write(&json!({"i": i, "mismatch": true, "pkgs": pkgs, "expected": want, "got": got}))?;
+                } else if !injective {
+                    w.write(&json!({"i": i, "collision": true, "pkgs": pkgs, "got": got}))?;
+                }
+            }
+        }
+    }
+    w.write(&json!({"done": vecs.len(), "invalid": invalid}))?;
+    w.finish()
+}
+
+pub fn record(seed: u64, n: usize, out: &str) -> Result<()> {
+    let mut rng = Rng::new(seed);
+    let mut w = NdjsonWriter::create(out)?;
+    let names = ["foo", "foo-bar", "foo1", "a", "bar-c"];
+    let ids = ["rc", "1", "a", "0", "rc1", "R", "C", "b", "10", "ab", "aB"];
+    let mut made = 0;
+    while made < n {
+        let k = 2 + rng.below(3);
+        let mut pkgs: Vec<(String, String)> = Vec::new();
+        let same_name = *rng.pick(&names);
+        for _ in 0..k {
+            let name = if rng.chance(3, 4) { same_name } else { *rng.pick(&names) };
+            let ver = if rng.chance(1, 8) {
+                String::new()
+            } else {
+                let mut v = format!("{}.{}.{}", rng.below(3), rng.below(11), rng.below(2));
+                if rng.chance(1, 2) {
+                    v.push('-');
+                    let m = 1 + rng.below(3);
+                    for j in 0..m {
+                        if j > 0 {
+                            v.push(if rng.chance(1, 2) { '.' } else { '-' });
+                        }
+                        v.push_str(*rng.pick(&ids[..]));
+                    }
+                }
+                if rng.chance(1, 3) {
+                    v.push('+');
+                    v.push_str(*rng.pick(&ids[..]));
+                    if rng.chance(1, 2) {
+                        v.push(if rng.chance(1, 2) { '.' } else { '-' });
+                        v.push_str(*rng.pick(&ids[..]));
+                    }
+                }
+                v
+            };
+            if !pkgs.iter().any(|p| p.0 == name && p.1 == ver) {
+                pkgs.push((name.to_string(), ver));
+            }
+        }
+        let Ok(got) = module_names(&pkgs) else { continue };
+        made += 1;
+        let chars = |s: &str| s.chars().map(|c| c.to_string()).collect::<Vec<_>>();
+        let rows: Vec<Value> = pkgs
+            .iter()
+            .zip(&got)
+            .map(|(p, m)| json!({"name": chars(&p.0), "ver": chars(&p.1), "mod": chars(m)}))
+            .collect();
+        w.write(&json!({"pkgs": rows}))?;
+    }
+    w.finish()
+}
